@@ -64,6 +64,8 @@ structure NbRun where
   script : List NbItem
   calls : List NbCall
   downlinks : List (Nat × List Nat)
+  /-- capacity `D` of the downlink queue; a downlink pushed onto a full queue is dropped -/
+  dlCap : Nat := 8
   deriving Repr
 
 def NbRun.next (r : NbRun) (c : NbCall) : NbItem × NbRun :=
@@ -165,7 +167,9 @@ def nbStep {σ} (g : Rng σ) (cfg : NbCfg) (r : NbRun) (ev : NbEvent) (rs : σ) 
           | some o =>
             if o.resp == .noUpdate then pure (.mac .noUpdate, r, rs)
             else
-              let r := match o.downlink with | some d => { r with downlinks := d :: r.downlinks } | none => r
+              let r := match o.downlink with
+                | some d => if r.downlinks.length < r.dlCap then { r with downlinks := d :: r.downlinks } else r
+                | none => r
               pure (.mac o.resp, { r with st := .idle }, rs)
           | none => pure (.mac .noUpdate, r, rs)
     | .timeout => do
